@@ -67,13 +67,16 @@ def updateLines (f : Str → Str → Except Err Str) : List Upd → List Str →
       let l' ← f u.thing l
       updateLines f us (ls.set (u.lineNo - 1) l')
 
-/-- body rewrite of `_add_zids`: `f"{zid} {old_body}"` with a leading long date dropped -/
+/-- body rewrite of `_add_zids`: `f"{zid} {old_body}"` with a leading long date dropped (the date is the first
+whitespace-delimited word: it may be the only word of the first line) -/
 def addZidToBody (zid body : Str) : Str :=
-  let old := body.dropWhile (fun c => c == ' ' || c == '\t' || c == '\n' || c == '\r' || c == '\x0b' || c == '\x0c')
-  let ws := splitOn ' ' old
-  let old := match ws with
-    | w :: r => if isLongDate w then joinSp r else old
-    | [] => old
+  let ws (c : Char) : Bool := c == ' ' || c == '\t' || c == '\n' || c == '\r' || c == '\x0b' || c == '\x0c'
+  let old := body.dropWhile ws
+  let first := old.takeWhile (fun c => !ws c)
+  let old := if isLongDate first then
+      let r := old.drop first.length
+      match r with | ' ' :: r' => r' | _ => r
+    else old
   zid ++ [' '] ++ old
 
 /-- `Note.to_string()` -/
